@@ -10,6 +10,8 @@ import contextlib
 import io
 import itertools
 import json
+
+import common
 from collections import Counter
 
 import numpy as np
@@ -203,7 +205,7 @@ def run(chk, replay=None):
     if replay:
         cases = [json.loads(open(replay).read())["case"]]
     else:
-        for f in sorted((chk.case_dir.parents[2] / "corpus" / "C12").glob("*.json")):
+        for f in sorted((common.CORPUS / "C12").glob("*.json")):
             cases.append(json.loads(f.read_text())["case"])
         n_random = 2000 if chk.tier == "quick" else 40000
         for _ in range(n_random):
